@@ -118,10 +118,8 @@ func TestSweep(t *testing.T) {
 			ip[pos] = byte(v)
 			for _, c := range []RTCase{{IP: ip[:]}, {IP: netip.AddrFrom16(netip.AddrFrom4(ip).As16()).AsSlice(), Dot: true, Upper: []bool{true, false, true, true, true}}} {
 				n++
-				vp.Eval("c04.roundtrip")
 				vp.NonTrivialStr("c04.roundtrip", string(c.IP), fmt.Sprint(c.Upper, c.Dot))
-				if err := checkRT(c); err != nil {
-					vp.Fail(t, "c04.roundtrip", c, err)
+				if !vp.CheckCase(t, "c04.roundtrip", c, checkRT) {
 					return
 				}
 			}
@@ -141,10 +139,8 @@ func TestSweep(t *testing.T) {
 			}
 			c := RTCase{IP: ip[:], Upper: up, Dot: pos%2 == 1}
 			n++
-			vp.Eval("c04.roundtrip")
 			vp.NonTrivialStr("c04.roundtrip", string(c.IP), fmt.Sprint(c.Upper, c.Dot))
-			if err := checkRT(c); err != nil {
-				vp.Fail(t, "c04.roundtrip", c, err)
+			if !vp.CheckCase(t, "c04.roundtrip", c, checkRT) {
 				return
 			}
 		}
@@ -246,10 +242,7 @@ var acceptProp = vp.Register(vp.Prop[AcceptCase]{
 
 func TestDictionary(t *testing.T) {
 	for _, s := range gen.Dict {
-		vp.Eval("c04.accept")
-		if _, err := checkAccept(s); err != nil {
-			vp.Fail(t, "c04.accept", AcceptCase{S: vp.S(s)}, err)
-		}
+		vp.CheckCase(t, "c04.accept", AcceptCase{S: vp.S(s)}, func(c AcceptCase) error { _, err := checkAccept(string(c.S)); return err })
 	}
 }
 
@@ -264,7 +257,7 @@ func FuzzAccept(f *testing.F) {
 	f.Add("4.3.2.1.in-addr.arpa")
 	f.Add("b.a.9.8.7.6.5.0.4.0.0.0.3.0.0.0.2.0.0.0.1.0.0.0.0.0.0.0.1.2.3.4.ip6.arpa")
 	f.Fuzz(func(t *testing.T, s string) {
-		if _, err := checkAccept(s); err != nil {
+		if err := vp.Guard(func() error { _, err := checkAccept(s); return err }); err != nil {
 			t.Fatal(err)
 		}
 	})
@@ -282,7 +275,7 @@ func FuzzRoundTrip(f *testing.F) {
 		for i := range up {
 			up[i] = mask>>uint(i)&1 == 1
 		}
-		if err := checkRT(RTCase{IP: ip, Upper: up, Dot: dot}); err != nil {
+		if err := vp.Guard(func() error { return checkRT(RTCase{IP: ip, Upper: up, Dot: dot}) }); err != nil {
 			t.Fatal(err)
 		}
 	})
